@@ -248,6 +248,12 @@ func histOracle(op M, res any, exec func(M) any) []Finding {
 					// an extraction that rewrites the list it walks: what later extractions return is no
 					// longer the reachable set of the list the caller holds
 					props = append(props, "C15")
+				case "union", "add":
+					// likewise for the merges: the property speaks about the lists the caller built, and the
+					// next merge with the same receiver starts from something else
+					props = append(props, "C09")
+				case "intersect":
+					props = append(props, "C10")
 				}
 				switch producer[ri] {
 				case "union":
